@@ -29,10 +29,10 @@ for d in sorted(os.listdir(V + "/seeded")):
     now = "caught" if (m["ran"].get("caught_by_quick") or m["ran"].get("caught_by_quick_after_strengthening")) else "being strengthened"
     sd.append("| %s | %s | %s | %s |" % (d, m["breaks_property"], first, now))
 seeds = "\n".join(sd)
-rows = json.load(open(V + "/docs/status_rows.json"))
+srows = json.load(open(V + "/docs/status_rows.json"))
 st = []
-for pid in sorted(rows):
-    r = rows[pid]
+for pid in sorted(srows):
+    r = srows[pid]
     try:
         e = json.load(open(V + "/evidence/%s.json" % pid)); c = e["coverage"]
         head = "**%s** — %s theorems; %s cases in the last quick run" % (pid, c.get("obligations"), c.get("evaluations"))
